@@ -2,7 +2,7 @@
 from . import ipgen
 
 from .ipcommon import MODEL_DEPS, TRUSTED_BASE, ASSUMPTIONS, RULE_C01 as RULE  # noqa
-COQ_DEPS = ["lib/PPCore.v", "lib/PPHost.v", "lib/Memo.v", "lib/MemoProofs.v", "lib/PyLib.v", "gen/G_fn_ip.v", "refine/RefIpCommon.v", "refine/RefAnon.v"]
+COQ_DEPS = ["lib/PPCore.v", "lib/PPHost.v", "lib/Memo.v", "lib/MemoProofs.v", "lib/PyLib.v", "gen/G_fn_ip.v", "refine/RefIpCommon.v", "refine/RefAnon.v", "refine/RefDeanon.v", "refine/RefInit.v", "refine/RefHash.v", "refine/RefEndToEnd.v", "lib/PyHash.v", "lib/Md5.v", "model/IpModel.v", "model/DriverFn.v"]
 
 
 def oracle(ctx, case, out, label):
